@@ -402,4 +402,31 @@ example : Gone (1, 1) 1000
     · simp at hid
     · simp
 
+/-- Without a confirmation period the general failure-detection step is the one the theorems above
+are about (the engine runs `fdTickD`; `D = 0` in every scenario without suspicion). -/
+theorem C18_fdTickD_zero (n : Node) (now : Nat) : fdTickD n 0 now = fdTick n now := by
+  unfold fdTickD fdTick stale
+  simp
+
+/-- With a confirmation period a member is only removed after `T + D`; before that it is kept,
+at worst as Suspect. -/
+theorem C18_fdD_keeps_within_confirmation (n : Node) (D now : Nat) (m : Mem) (h : m ∈ n.mem)
+    (hf : ¬ m.seen + n.T + D < now) : ∃ e ∈ (fdTickD n D now).mem, e.id = m.id ∧ e.seen = m.seen := by
+  unfold fdTickD
+  refine ⟨_, List.mem_map.2 ⟨m, List.mem_filter.2 ⟨h, by simp [hf]⟩, rfl⟩, ?_⟩
+  split <;> exact ⟨rfl, rfl⟩
+
+/-- Direct gossip clears a suspicion: after handling a gossip from address `s`, the newest entry at
+that address is not Suspect. -/
+theorem C18_recv_clears_suspicion (ms : List Mem) (id : Nat × Nat) (now : Nat) (e : Mem)
+    (he : e ∈ refresh ms id now) (hid : e.id = id) : e.st ≠ .suspect := by
+  unfold refresh at he
+  obtain ⟨m, hm, rfl⟩ := List.mem_map.1 he
+  by_cases h : m.id = id
+  · simp only [h, if_true]
+    by_cases hs : m.st = .suspect
+    · simp [hs]
+    · simp [hs]
+  · simp only [h, if_false] at hid
+
 end Vivid.Gossip
